@@ -44,6 +44,8 @@ func runC05(r *an.Run) {
 	c10PackageGuard(r)
 	relabel(r, "R2-package-guard", "R7-package-clause-unchanged-by-context-line")
 	c05FileIdentity(r)
+	// the library: what Apply returns for one file is not scratch space of the next call
+	libraryFileImmutable(r, "R9-library-results-do-not-alias")
 }
 
 // astWrites lists stores whose destination is a field of a go/ast (or
